@@ -35,6 +35,10 @@ def route_text(r: dict, variants: list[dict]) -> str:
     t = f'route {r["p"]} next-hop {r["nh"]}'
     if r.get('pid') is not None:
         t += f' path-information {r["pid"]}'
+    if r.get('lab') is not None:
+        t += f' label [ {r["lab"]} ]'
+    if r.get('rd'):
+        t += f' rd {r["rd"]}'
     if r.get('v') is not None:
         t += ' ' + variant_text(variants[r['v']])
     return t
@@ -85,8 +89,12 @@ def gen_neighbors(rng, n: int, addpath: bool, ipv6: bool) -> list[dict]:
     return out
 
 
+def families_of(nb: dict) -> list[tuple[int, int]]:
+    return [(1, 1)] + ([(2, 1)] if nb.get('ipv6') else []) + ([(1, 4), (1, 128)] if nb.get('mpls') else [])
+
+
 def neighbor_conf(nb: dict, static: list[str], api_options=None, receive=None, extra=None) -> dict:
-    fams = [(1, 1)] + ([(2, 1)] if nb.get('ipv6') else [])
+    fams = families_of(nb)
     n = {
         'peer_ip': nb['peer_ip'], 'local_ip': LOCAL, 'local_as': nb['local_as'], 'peer_as': nb['peer_as'], 'router_id': LOCAL,
         'hold': nb.get('hold', 90), 'families': fams, 'adj-rib-out': nb.get('adj_rib_out', True), 'group-updates': nb.get('group_updates', True),
@@ -105,7 +113,7 @@ def neighbor_conf(nb: dict, static: list[str], api_options=None, receive=None, e
 
 
 def make_speaker(w, nb: dict) -> Speaker:
-    fams = [(1, 1)] + ([(2, 1)] if nb.get('ipv6') else [])
+    fams = families_of(nb)
     spec = {'asn': nb['peer_as'], 'families': fams, 'enh_refresh': nb.get('enh_refresh', False)}
     if nb.get('addpath'):
         spec['addpath'] = [(1, 1, 3)]
@@ -114,16 +122,24 @@ def make_speaker(w, nb: dict) -> Speaker:
     return Speaker(w, f'p{nb["idx"]}', nb['peer_ip'], nb['peer_as'], nb['peer_ip'], LOCAL, hold=nb.get('hold', 90), caps=speaker_caps(spec))
 
 
-def key_of(prefix: str, pid, addpath: bool) -> tuple:
+def key_of(prefix: str, pid, addpath: bool, lab=None, rd=None) -> tuple:
+    """the route's identity as RFC 4271/7911/8277/4364 define it: family, path-id (ADD-PATH only), prefix, RD - not the label"""
     net = ipaddress.ip_network(prefix, strict=False)
     afi = 1 if net.version == 4 else 2
-    ap = addpath and afi == 1
-    return (afi, 1, (int(pid) if pid is not None else 0) if ap else None, str(net), None)
+    safi = 128 if rd else (4 if lab is not None else 1)
+    ap = addpath and afi == 1 and safi == 1
+    return (afi, safi, (int(pid) if pid is not None else 0) if ap else None, str(net), rd or None)
+
+
+def rkey(r: dict, addpath: bool) -> tuple:
+    return key_of(r['p'], r.get('pid'), addpath, r.get('lab'), r.get('rd'))
 
 
 _RE_PID = re.compile(r' path-information (\S+)')
 _RE_NH = re.compile(r' next-hop (\S+)')
 _RE_MED = re.compile(r' med (\d+)')
+_RE_LABEL = re.compile(r' label (\d+) ')
+_RE_RD = re.compile(r' rd (\S+)')
 
 
 def reported_table(neighbor, addpath: bool) -> dict:
@@ -139,13 +155,15 @@ def reported_table(neighbor, addpath: bool) -> dict:
             pid = int(ipaddress.IPv4Address(m.group(1)))
         nh = _RE_NH.search(text)
         med = _RE_MED.search(text)
-        k = key_of(prefix, pid, addpath)
-        out[k] = (nh.group(1) if nh else None, int(med.group(1)) if med else None)
+        lab = _RE_LABEL.search(text)
+        rd = _RE_RD.search(text)
+        k = key_of(prefix, pid, addpath, int(lab.group(1)) if lab else None, rd.group(1) if rd else None)
+        out[k] = (nh.group(1) if nh else None, int(med.group(1)) if med else None) + ((int(lab.group(1)),) if lab else ())
     return out
 
 
 def peer_view(table: R.PeerTable) -> dict:
-    return {k: ((v['next_hop'][0] if v['next_hop'] else None), v['attrs'].get('med')) for k, v in table.routes.items()}
+    return {k: ((v['next_hop'][0] if v['next_hop'] else None), v['attrs'].get('med')) + ((v['labels'][0],) if v.get('labels') else ()) for k, v in table.routes.items()}
 
 
 def attrs_mismatch(table: R.PeerTable, variants: list[dict], nb: dict) -> str | None:
@@ -168,7 +186,7 @@ def attrs_mismatch(table: R.PeerTable, variants: list[dict], nb: dict) -> str | 
 
 
 def fmt_key(k) -> str:
-    return f'{k[3]}' + (f'#{k[2]}' if k[2] is not None else '')
+    return f'{k[3]}' + (f'#{k[2]}' if k[2] is not None else '') + ({1: '', 2: ' multicast', 4: ' labelled', 128: f' vpn rd {k[4]}'}.get(k[1], f' safi {k[1]}'))
 
 
 def diff_tables(a: dict, b: dict, na: str, nb: str, limit: int = 4) -> list[str]:
